@@ -8,6 +8,7 @@ Two families of cases:
 """
 import base64
 import binascii
+import re
 
 import dns.exception
 import dns.ipv4
@@ -330,6 +331,7 @@ SCHEMA = {
     27: ("gplat gplon gpalt", ["latitude", "longitude", "altitude"]),
     25: ("keyrec", [("flags", "protocol", "algorithm", "key")]),
     42: ("apl", ["items"]),
+    29: ("locrec", [("latitude", "longitude", "altitude", "size", "horizontal_precision", "vertical_precision")]),
     11: ("a4s wproto wports", ["address", "protocol", "bitmap"]),
     250: ("nnr d48 d16 mac d16 ercode b64opt", ["algorithm", "time_signed", "fudge", "mac", "original_id", "error", "other"]),
     # composite kinds take several constructor arguments / attributes
@@ -407,6 +409,22 @@ def gen_field(rng, kind):
         b = bytearray(rng.choice([0, 0, 0, 1, 0x80, 0x41, 0xFF, rng.randrange(256)]) for _ in range(n))
         b[-1] = b[-1] or rng.choice([1, 0x80, 0x10])
         return bytes(b)
+    if kind == "locrec":
+        def coord(lim):
+            d = rng.choice([0, 1, lim - 1, lim, rng.randrange(lim + 1)])
+            return [d, rng.choice([0, 0, 59, rng.randrange(60)]), rng.choice([0, 0, 59, rng.randrange(60)]),
+                    rng.choice([0, 0, 1, 10, 100, 999, rng.randrange(1000)]), rng.choice([1, -1])]
+
+        def size():
+            r = rng.random()
+            if r < 0.6:
+                return float(rng.randrange(10) * 10 ** rng.randrange(10))
+            if r < 0.8:
+                return float(rng.choice(["0.29", "1.15", "0.07", "1e-9", "123456.789", "9999999999.5", "0.999", "-0.4", "5e-324"])) * 100.0
+            return rng.random() * 10 ** rng.randrange(-3, 10)
+        alt = rng.choice([0, 1, -1, 99, 100, 115, -100000_00, 4284967295, -9999999, rng.randrange(-10**7, 4284967296), rng.randrange(-10**6, 10**6)])
+        sz = [100.0, 1000000.0, 1000.0] if rng.random() < 0.4 else [size(), size(), size()]
+        return [coord(90), coord(180), alt] + [dbl_obs(x) for x in sz]
     if kind == "apl":
         items = []
         for _ in range(rng.choice([0, 1, 1, 2, 3, 5])):
@@ -503,6 +521,52 @@ def mkname(ls):
     return None if ls is None else dns.name.Name(ls)
 
 
+def dbl_obs(x):
+    """canonical (neg, m, e) of a finite double: x = (-1)^neg * m * 2^e, m >= 2^52 unless e = -1074"""
+    import math
+    neg = int(math.copysign(1.0, x) < 0)
+    a = abs(x)
+    if a == 0:
+        return [neg, 0, -1074]
+    m, e = math.frexp(a)
+    M, E = int(m * 2**53), e - 53
+    if E < -1074:
+        M >>= (-1074 - E)
+        E = -1074
+    return [neg, M, E]
+
+
+def dbl_of_obs(o):
+    import math
+    neg, m, e = o
+    return (-1.0 if neg else 1.0) * math.ldexp(float(m), e)
+
+
+PLAIN_FLOAT = re.compile(r"[+-]?(\d+(\.\d*)?|\.\d+)")
+
+
+def loc_in_model(text):
+    """float() also accepts exponents, inf/nan, underscores and blanks: those spellings are outside the model"""
+    if any(ord(c) > 127 for c in text):
+        return False
+    try:
+        tk = dns.tokenizer.Tokenizer(text)
+        while True:
+            t = tk.get().unescape()
+            if t.is_eol_or_eof():
+                break
+            v = t.value[:-1] if t.value.endswith("m") else t.value
+            try:
+                float(v)
+            except ValueError:
+                continue
+            if not PLAIN_FLOAT.fullmatch(v):
+                return False
+    except Exception:  # noqa
+        pass
+    return True
+
+
 def gw_enc(g):
     return 0 if g is None else enc(g) if isinstance(g, str) else nl.labels_of(g)
 
@@ -520,6 +584,8 @@ def build_rdata(rdtype, vals):
             flat += [g, alg, gwo] if k == "gwi" else [g, gwo]
         elif k == "keyrec":
             flat += list(a)
+        elif k == "locrec":
+            flat += [tuple(a[0]), tuple(a[1]), float(a[2])] + [dbl_of_obs(o) for o in a[3:]]
         elif k == "apl":
             import dns.rdtypes.IN.APL as _apl  # noqa
             flat.append([_apl.APLItem(f, bool(n), ad if f not in (1, 2) else (dns.ipv4.inet_ntoa(ad) if f == 1 else dns.ipv6.inet_ntoa(ad)), px)
@@ -552,6 +618,53 @@ def schema_cases(ctx):
         for dt in (0, 1, 2, 3, 4, 5, 255, 256):
             for n in sorted({1, 2, DS_LEN.get(dt, 7), DS_LEN.get(dt, 7) + 1}):
                 yield "rd-from-text", [41, rdtype, enc("60485 %s %d %s" % (rng.choice(["5", "8", "RSASHA1", "ED25519"]), dt, "ab" * n)), [None, 1, None]]
+    # LOC: optional minutes / seconds / milliseconds, hemispheres, altitude and size spellings, float rounding
+    for t in ('42 N 71 W 0m',
+              '42 21 N 71 06 W -24m 30m',
+              '42 21 54 N 71 06 18 W -24m 30m',
+              '42 21 54.5 N 71 6 18.12 W 10.5m 1m 10000m 10m',
+              '42 21 54.123 N 71 6 18.1 W 10.5 1 10000 10',
+              '42 21 54. N 71 W 0',
+              '42 21 54.1234 N 71 W 0',
+              '42 21 .5 N 71 W 0',
+              '42 21 5.5.5 N 71 W 0',
+              '42 21 54 71 W 0',
+              '42 21 54 X 71 W 0',
+              '91 N 0 E 0',
+              '90 59 59.999 N 180 59 59.999 E 0',
+              '90 60 N 0 E 0',
+              '42 N 71 W',
+              '42 N 71 W m',
+              '42 N 71 W .5m',
+              '42 N 71 W -.5m',
+              '42 N 71 W +1.m',
+              '42 N 71 W 42849672.95m',
+              '42 N 71 W 42849672.96m',
+              '42 N 71 W -100000.00m',
+              '42 N 71 W -100000.01m',
+              '42 N 71 W 0 0.29m 1.15m 0.07m',
+              '42 N 71 W 0 0m 0m 0m',
+              '42 N 71 W 0 90000000m 90000000m 90000000m',
+              '42 N 71 W 0 100000000m',
+              '42 N 71 W 0 -1m',
+              '42 N 71 W 0 -0.001m',
+              '42 N 71 W 0 1m 2m 3m 4m',
+              '42 N 71 W 0 1m 2m',
+              '42 N 71 W 0 1m',
+              '42 N 71 W 0 "1m" \\0491m',
+              '\\04\\050 N 71 W 0',
+              '42 n 71 w 0',
+              '42 N 71 W 0 1x',
+              '42 N 71 W 1..5',
+              '-42 N 71 W 0',
+              '042 021 N 071 W 01.50m',
+              '42 N 71 W 0.005m',
+              '42 N 71 W 0.015m',
+              '42 N 71 W 0.025m',
+              '42 N 71 W 1.005m',
+              '42 N 71 W 2.675m',
+              '42 N 71 W 99999999999999999999m'):
+        yield "rd-from-text", [41, 29, enc(t), [None, 1, None]]
     # WKS: numeric protocol / ports (names are resolved by the system's databases: outside the model)
     for t in ("10.0.0.1 6", "10.0.0.1 6 ", "10.0.0.1 6 0", "10.0.0.1 6 7 0 7", "10.0.0.1 6 65535", "10.0.0.1 6 65536", "10.0.0.1 256 1", "10.0.0.1 06 08",
               '"10.0.0.1" "6" "25"', "10.0.0.1 6 25 ; smtp", "10.0.0.1 6 ( 25\n 80 )", "10.0.0.1", "10.0.0 6 1", "10.0.0.1 6 \\050\\053",
@@ -981,6 +1094,8 @@ def in_model(kind, case):
         return svcb_in_model(dec(case[2]))
     if case[0] == 57 and any(c > 127 for c in (case[1] if isinstance(case[1], (bytes, list)) else b"")):
         return False  # str.upper() / isdecimal() of non-ASCII text
+    if case[0] == 41 and case[1] == 29 and not loc_in_model(dec(case[2])):
+        return False
     if case[0] == 41 and case[1] == 11:
         # WKS protocol / service names go to the system's databases (socket.getprotobyname / getservbyname)
         try:
@@ -1162,6 +1277,9 @@ def impl(case):
                     continue
                 if k == "keyrec":
                     out.append([int(v[0]), int(v[1]), int(v[2]), bytes(v[3])])
+                    continue
+                if k == "locrec":
+                    out.append([[int(x) for x in v[0]], [int(x) for x in v[1]], int(v[2]), dbl_obs(v[3]), dbl_obs(v[4]), dbl_obs(v[5])])
                     continue
                 if k == "apl":
                     out.append([[int(i.family), int(i.negation),
